@@ -1082,6 +1082,10 @@ public:
     pushOutputContext(FormatterListener*    theListener)
     {
         m_outputContextStack.pushContext(theListener);
+
+        // The result now goes somewhere else (a result tree fragment, a
+        // string), so what is declared where it is built is not in scope.
+        m_resultNamespacesStack.pushIsolatedScope();
     }
 
     /*
@@ -1091,6 +1095,8 @@ public:
     popOutputContext()
     {
         m_outputContextStack.popContext();
+
+        m_resultNamespacesStack.popIsolatedScope();
     }
 
     /*
